@@ -5,13 +5,21 @@ import os
 
 REPO = os.environ.get('PYVC_REPO', '/repo')
 
+VERIF = os.path.dirname(os.path.dirname(os.path.abspath(__file__)))
 _cache = {}
+
+
+def resolve_path(relpath):
+    """'verif:contracts/x.py' names a harness file under /verif (lemma drivers, never repo code)."""
+    if relpath.startswith('verif:'):
+        return os.path.join(VERIF, relpath[6:])
+    return os.path.join(REPO, relpath)
 
 
 class ModuleSrc:
     def __init__(self, relpath):
         self.relpath = relpath
-        self.path = os.path.join(REPO, relpath)
+        self.path = resolve_path(relpath)
         with open(self.path) as f:
             self.text = f.read()
         self.tree = ast.parse(self.text)
